@@ -515,6 +515,14 @@ func c05R2(p *Prog, r *Report) {
 							for i, a := range x.Call.Args {
 								if a == v && i < len(c.Params) {
 									dest["param:"+strings.ToLower(c.Params[i].Name())] = true
+									// a module helper that builds (part of) the header: where it puts the value
+									if isModuleFn(c) && c.Blocks != nil && d < 6 && !x.Call.IsInvoke() {
+										before := len(dest)
+										follow(c.Params[i], d+3)
+										if len(dest) > before {
+											delete(dest, "param:"+strings.ToLower(c.Params[i].Name()))
+										}
+									}
 								}
 							}
 							// value methods (Dims) of the argument: result goes somewhere
@@ -570,6 +578,78 @@ type recSlot struct {
 	valDesc string
 	orig    ssa.Value // the value in the assembling function (val is mapped to the writer method)
 	foreign bool      // computed inside the helper: not expressible in the writer method
+	poly    Poly      // for a part appended by a helper in the middle of the chain: its value in the writer method's terms
+}
+
+// slotPoly: the part's value as a polynomial in the writer method's terms.
+func slotPoly(pc *PolyCtx, s recSlot) Poly {
+	if s.poly != nil {
+		return s.poly
+	}
+	return pc.Of(s.val)
+}
+
+// slotDesc: the part's value described in the writer method's terms.
+func slotDesc(s recSlot) string {
+	if s.poly != nil {
+		if syms := s.poly.Symbols(); len(syms) == 1 && len(s.poly) == 1 && s.poly[syms[0]] == 1 {
+			return syms[0]
+		}
+		return s.poly.String()
+	}
+	return c05Describe(s.val, nil, 0)
+}
+
+// appendHelperChain: h takes a byte buffer as its k-th parameter and returns it with getbytes views
+// appended (builtin appends only, one order, every return hands back the end of the chain).
+func appendHelperChain(h *ssa.Function, k int, sizes types.Sizes) ([]recSlot, bool) {
+	if h == nil || h.Blocks == nil || k >= len(h.Params) {
+		return nil, false
+	}
+	var slots []recSlot
+	var cur ssa.Value = h.Params[k]
+	for {
+		var next *ssa.Call
+		n := 0
+		for _, ref := range *cur.Referrers() {
+			if c, ok := ref.(*ssa.Call); ok {
+				if b, ok := c.Call.Value.(*ssa.Builtin); ok && b.Name() == "append" && c.Call.Args[0] == cur {
+					next = c
+					n++
+				}
+			}
+		}
+		if n == 0 {
+			break
+		}
+		if n > 1 || InLoop(next) {
+			return nil, false
+		}
+		src, ok := next.Call.Args[1].(*ssa.Call)
+		if !ok {
+			return nil, false
+		}
+		sl, ok := slotFromView(src, sizes)
+		if !ok {
+			return nil, false
+		}
+		sl.instr = next
+		if len(slots) > 0 && !InstrDominates(slots[len(slots)-1].instr, next) {
+			return nil, false
+		}
+		slots = append(slots, sl)
+		cur = next
+	}
+	okRet, nRet := true, 0
+	Instrs(h, func(in ssa.Instruction) {
+		if ret, ok := in.(*ssa.Return); ok {
+			nRet++
+			if len(ret.Results) != 1 || ret.Results[0] != cur {
+				okRet = false
+			}
+		}
+	})
+	return slots, okRet && nRet > 0 && len(slots) > 0
 }
 
 // recLayout is the byte layout of one record as the code assembles it.
@@ -813,6 +893,48 @@ func recordLayout(fn *ssa.Function) *recLayout {
 				}
 			}
 			if n == 0 {
+				// a module helper that takes the buffer and hands it back with parts appended
+				var hc *ssa.Call
+				for _, ref := range *cur.Referrers() {
+					c, ok := ref.(*ssa.Call)
+					if !ok || c.Call.StaticCallee() == nil || !isModuleFn(c.Call.StaticCallee()) || !types.Identical(c.Type(), cur.Type()) {
+						continue
+					}
+					for k, a := range c.Call.Args {
+						if a != cur {
+							continue
+						}
+						h := c.Call.StaticCallee()
+						sub, ok := appendHelperChain(h, k, sizes)
+						if !ok {
+							continue
+						}
+						hpc2 := NewPolyCtx(h)
+						trPoly, _ := callTranslator(h, c, NewPolyCtx(fn), hpc2)
+						for _, sl := range sub {
+							sl.orig = sl.val
+							if prm, isPrm := sl.val.(*ssa.Parameter); isPrm {
+								for j, pp := range h.Params {
+									if pp == prm {
+										sl.val = c.Call.Args[j]
+									}
+								}
+							} else {
+								sl.poly = trPoly(hpc2.Of(sl.val))
+							}
+							sl.instr = c
+							if len(L.slots) > 0 && !InstrDominates(L.slots[len(L.slots)-1].instr, c) {
+								L.problems = append(L.problems, "record parts are not appended on every path in one order")
+							}
+							L.slots = append(L.slots, sl)
+						}
+						hc = c
+					}
+				}
+				if hc != nil {
+					cur = hc
+					continue
+				}
 				break
 			}
 			if n > 1 {
@@ -1144,14 +1266,14 @@ func c05R3(p *Prog, r *Report) {
 			// subframe count = framecount*SubframeDivisions + SubframeOffset
 			recv := fn.Params[0].Name()
 			want := polySym("framecount").Mul(polySym(recv + ".SubframeDivisions")).Add(polySym(recv + ".SubframeOffset"))
-			r.Check(pc.Of(slots[0].val).Equal(want), "C05.R3", name+": first word is framecount*divisions+offset", p.InstrPos(slots[0].instr), want.String(),
-				"sub-frame count is computed as "+pc.Of(slots[0].val).String()+", want "+want.String())
-			r.Check(c05Describe(slots[1].val, nil, 0) == "timestamp" && c05Describe(slots[2].val, nil, 0) == "data", "C05.R3", name+": second word is the timestamp, then the samples", p.InstrPos(slots[1].instr), "timestamp, data", "the time word / sample block are not the timestamp and data parameters")
+			r.Check(slotPoly(pc, slots[0]).Equal(want), "C05.R3", name+": first word is framecount*divisions+offset", p.InstrPos(slots[0].instr), want.String(),
+				"sub-frame count is computed as "+slotPoly(pc, slots[0]).String()+", want "+want.String())
+			r.Check(slotDesc(slots[1]) == "timestamp" && slotDesc(slots[2]) == "data", "C05.R3", name+": second word is the timestamp, then the samples", p.InstrPos(slots[1].instr), "timestamp, data", "the time word / sample block are not the timestamp and data parameters")
 		}
 		if w.typ == "Writer3" && len(slots) == 5 {
 			descs := []string{}
 			for _, s := range slots {
-				descs = append(descs, c05Describe(s.val, nil, 0))
+				descs = append(descs, slotDesc(s))
 			}
 			want := []string{"len(data)", "firstRisingSample", "framecount", "timestamp", "data"}
 			got := strings.Join(descs, ", ")
